@@ -5,7 +5,7 @@ import itertools, json, math, copy
 from fractions import Fraction
 import numpy as np
 from .common import *
-from .tape import Tape, lazy, m_fy, m_pyshuffle, LogRS
+from .tape import MirrorMismatch, Tape, lazy, m_fy, m_pyshuffle, LogRS
 from cryptorandom.cryptorandom import SHA256
 from permute import core, ksample, utils
 
@@ -199,6 +199,12 @@ def cases(tier, rng, dist, focus=None):
         xs[rng.randrange(nx)] = rng.choice([9, 14, -7]); ys[rng.randrange(ny)] = rng.choice([14, 9, -5])
         yield {"f": "real", "fn": "two_sample_shift", "x": xs, "y": ys, "stat": "t" if k % 4 else "mean", "alt": rng.choice(ALTS),
                "reps": 60, "plus1": rng.random() < 0.5, "seed": 2 * rng.randint(0, 10**5), "gseed": rng.randint(0, 10**6)}
+    # long samples: every unit must be reachable by the randomization ("every sign assignment / every allocation equally
+    # likely ... all sample sizes"): with 64 repetitions each unit is flipped / allocated to either side at least once
+    # except with probability 2^-63 per unit under a uniform generator (real seeds; arguments recorded)
+    for k in range(4 if tier == "quick" else 16):
+        yield {"f": "coverage", "fn": ["one_sample", "two_sample", "one_sample", "k_sample"][k % 4], "n": [40, 40, 70, 36][k % 4] + (k // 4),
+               "reps": 64, "seed": rng.randint(0, 10**9), "rs": k >= 8 and k % 2 == 0}
     # real seeds: reproducibility, generator interchangeability, p-value assembly on named float statistics
     for _ in range(N // 2):
         nx, ny = rng.randint(2, 6), rng.randint(2, 6)
@@ -268,7 +274,50 @@ def run(c):
         return run_pot(c)
     if f == "prng":
         return run_prng(c)
+    if f == "coverage":
+        return run_coverage(c)
     return run_real(c)
+
+
+def run_coverage(c):
+    n = c["n"]; rec = []
+    seed = np.random.RandomState(c["seed"] % 2**32) if c.get("rs") else c["seed"]
+    if c["fn"] == "one_sample":
+        z = np.arange(1, n + 1, dtype=float)
+        def st(u):
+            rec.append([int(v < 0) for v in u]); return 0.0
+        r = guarded(lambda: core.one_sample(z, reps=c["reps"], stat=st, keep_dist=True, seed=seed))
+    elif c["fn"] == "two_sample":
+        x = np.arange(0, n // 2, dtype=float); y = np.arange(n // 2, n, dtype=float)
+        def st(u, v):
+            side = [0] * n
+            for w in v: side[int(w)] = 1
+            rec.append(side); return 0.0
+        r = guarded(lambda: core.two_sample(x, y, reps=c["reps"], stat=st, keep_dist=True, seed=seed))
+    else:
+        from permute import ksample
+        x = np.arange(n, dtype=float); g = np.array([i % 2 for i in range(n)])
+        def st(xx, gg, xbar):
+            rec.append([int(v) for v in gg]); return 0.0
+        r = guarded(lambda: ksample.k_sample(x, g, reps=c["reps"], stat=st, keep_dist=True, seed=seed))
+    return {"r": list(r)[:2] if r[0] != "ok" else ["ok"], "rec": rec}
+
+
+def oracle_coverage(c, o):
+    if o["r"][0] != "ok":
+        return {"why": f"{c['fn']} raised {o['r']}", "cls": f"{c['fn']}:raises"}
+    rows = o["rec"][-c["reps"]:]
+    if len(rows) < c["reps"] or any(len(r) != c["n"] for r in rows):
+        return {"why": f"{c['fn']}: the statistic was evaluated on {len(rows)} rearrangements of {c['n']} units, expected {c['reps']}", "cls": f"{c['fn']}:call-count"}
+    what = {"one_sample": ("sign-flipped", "kept its sign"), "two_sample": ("allocated to the second sample", "allocated to the first sample"),
+            "k_sample": ("given label 1", "given label 0")}[c["fn"]]
+    for i in range(c["n"]):
+        col = [r[i] for r in rows]
+        if all(v == col[0] for v in col):
+            return {"why": f"{c['fn']} with {c['n']} units, {c['reps']} repetitions, seed {c['seed']}: unit {i} was {what[0] if col[0] else what[1]} in EVERY repetition "
+                           f"(probability about 2^-{c['reps'] - 1} if every {'sign assignment' if c['fn'] == 'one_sample' else 'allocation'} were equally likely)",
+                    "cls": f"{c['fn']}:inadmissible"}
+    return None
 
 
 def chooser_of(c):
@@ -426,7 +475,11 @@ def run_named_on_tape(c):
     if fn == "one_sample":
         exp.append(doc_stat1(c["stat"], x))
         for _ in range(c["reps"]):
+            if len(ans) < len(x):
+                raise MirrorMismatch()       # fewer draws than one sign bit per unit and repetition
             b = [ans.pop(0) for _ in range(len(x))]
+            if any(bi not in (0, 1) for bi in b):
+                raise MirrorMismatch()
             exp.append(doc_stat1(c["stat"], [xi * (1 - 2 * bi) for xi, bi in zip(x, b)]))
     else:
         nx = len(x); rr = list(range(len(col0)))
@@ -540,7 +593,15 @@ def impl3(r):
     return f"(Ok ({cq(fl(r[1]))}, {cq(fl(r[2]))}, {d}))"
 
 
+class TapeTooWide(Exception):
+    pass
+
+
 def tape_coq(log):
+    # answers are bounded by the sizes of the designs (< 10^4); a wider answer means the implementation asked for
+    # draws of another kind (reported by the oracle): no Gallina term is written for such a run
+    if any(a > 10**5 for (_, a) in log):
+        raise TapeTooWide()
     return clist([a for (_, a) in log], cnat)
 
 
@@ -828,8 +889,11 @@ def oracle_k(c, o):
     b = o["b"]
     kept = a if a["keep"] else b
     other = b if a["keep"] else a
-    if other["r"][0] != "ok":
-        return {"why": f"k_sample raised {other['r']}", "cls": "k_sample:raises"}
+    for t in (other, kept):
+        if t["r"][0] != "ok":
+            if "TapeExhausted" in str(t["r"]):
+                return {"why": f"k_sample: the keep_dist={t['keep']} twin asked for more draws than the keep_dist={not t['keep']} run consumed on the same answers (results {a['r'][:3]} / {b['r'][:3]}): the number of draws depends on keep_dist or on the data", "cls": "k_sample:keepdist-draws"}
+            return {"why": f"k_sample raised {t['r']}", "cls": "k_sample:raises"}
     d = [fl(v) for v in kept["r"][3]]; tst = fl(kept["r"][2])
     cc = 1 if c["plus1"] else 0
     want = Fraction(sum(1 for v in d if v >= tst) + cc, c["reps"] + cc)
@@ -901,8 +965,10 @@ def oracle_real(c, o):
         if tp["r"][0] != "ok":
             return {"why": f"{name}(stat={c['stat']!r}) raised on a scripted generator: {tp['r']}", "cls": f"{name}:raises"}
         got = [tp["r"][2]] + tp["r"][3]
+        if tp.get("leftover"):
+            return {"why": f"{name}(stat={c['stat']!r}) drew {tp['leftover']} more answers than one shuffle pass / one sign per unit for each of the {c['reps']} repetitions: the number of draws depends on the data", "cls": f"{name}:draws-depend-on-data"}
         for k, (gv, ev) in enumerate(zip(got, tp["expected"])):
-            if math.isfinite(ev) and not (abs(gv - ev) <= 1e-9 * (1 + abs(ev))):
+            if (math.isfinite(ev) and not (abs(gv - ev) <= 1e-9 * (1 + abs(ev)))) or (math.isinf(ev) and gv != ev):
                 what = "observed statistic" if k == 0 else f"simulated value {k - 1}"
                 return {"why": f"{name}(stat={c['stat']!r}): {what} = {gv} but the documented statistic ({'difference in means' if c['stat'] == 'mean' else 'pooled-variance / one-sample t'}) on the {'data as given' if k == 0 else 'rearrangement selected by the draws'} is {ev} (x={c['x']}, y={c['y']})",
                         "cls": f"{name}:observed-stat" if k == 0 else f"{name}:wrong-rearrangement"}
@@ -935,7 +1001,7 @@ def oracle_real(c, o):
 
 def oracle(c, o):
     return {"two_sample": oracle_two, "one_sample": oracle_one, "corr": oracle_corr, "k_sample": oracle_k, "permute": oracle_permute,
-            "pot": oracle_pot, "real": oracle_real, "prng": oracle_prng}[c["f"]](c, o)
+            "pot": oracle_pot, "real": oracle_real, "prng": oracle_prng, "coverage": oracle_coverage}[c["f"]](c, o)
 
 
 def nontrivial(c, o):
@@ -944,6 +1010,7 @@ def nontrivial(c, o):
         a = o["a"]
         if a["r"][0] != "ok": return False
         kept = a if a["keep"] else o["b"]
+        if kept["r"][0] != "ok": return False
         d = kept["r"][3]; tst = kept["r"][2]
         return d is not None and any(v == tst for v in d) or (d is not None and any(v > tst for v in d) and any(v < tst for v in d))
     if f == "corr":
